@@ -66,7 +66,10 @@ def build_grid(g, model):
             return S.CTMCGridGeometric(h=h, model=model, nb_of_points_on_each_side=g["n_side"], truncation_probability=p)
         # credit
         levels = [float(-h - f * (abs(l) - h)) for f in g["a_frac"]]
-        if any(not (l < a < -h) for a in levels):
+        if g.get("boundary_threshold"):
+            # thresholds exactly AT the left truncation / at -h: the constructor has to refuse them or return a well-formed grid
+            levels = [float(l) if f >= 0.5 else float(-h) for f in g["a_frac"]]
+        elif any(not (l < a < -h) for a in levels):
             raise OutsideDomain("threshold not strictly between l and -h")
         g["_levels"] = levels
         if dim == 1:
